@@ -353,7 +353,7 @@ func main() {
 				"VERIF_PROP="+c.ID, "VERIF_TIER="+tier, fmt.Sprintf("VERIF_SEED=%d", seed),
 				fmt.Sprintf("VERIF_WORKER=%d", w), fmt.Sprintf("VERIF_NWORKERS=%d", b.Workers),
 				fmt.Sprintf("VERIF_MAX_SCENARIOS=%d", b.Scenarios), fmt.Sprintf("VERIF_MAX_SECONDS=%d", b.Seconds),
-				"VERIF_OUT="+outp, "VERIF_REPLAY_DIR="+replayDir, "VERIF_KNOWN="+filepath.Join(verifDir, "known_findings.json"),
+				"VERIF_OUT="+outp, "VERIF_REPLAY_DIR="+replayDir, "VERIF_KNOWN="+env("VERIF_KNOWN_FILE", filepath.Join(verifDir, "known_findings.json")),
 				"VERIF_SCRATCH="+filepath.Join(runDir, fmt.Sprintf("scratch%d", w)),
 				"VERIF_CURRENT_FILE="+filepath.Join(runDir, fmt.Sprintf("current%d.json", w)),
 				"GORACE=log_path="+filepath.Join(runDir, fmt.Sprintf("race%d", w))+" halt_on_error=0 exitcode=0",
@@ -562,7 +562,7 @@ func ruleOf(id string) string {
 
 func loadAllKnown() map[string]*sim.KnownFinding {
 	m := map[string]*sim.KnownFinding{}
-	b, err := os.ReadFile(filepath.Join(verifDir, "known_findings.json"))
+	b, err := os.ReadFile(env("VERIF_KNOWN_FILE", filepath.Join(verifDir, "known_findings.json")))
 	if err != nil {
 		return m
 	}
@@ -646,7 +646,7 @@ func selftest(defs map[string]*checkDef, repo string, only []string) {
 				cmd.Dir = runDir
 				cmd.Env = append(os.Environ(), "VERIF_PROP="+id, "VERIF_TIER=quick", "VERIF_SEED="+env("VERIF_SEED", "7"), "VERIF_WORKER=0", "VERIF_NWORKERS=1",
 					"VERIF_MAX_SCENARIOS="+n, "VERIF_MAX_SECONDS=3600", "VERIF_OUT="+outp, "VERIF_REPLAY_DIR="+runDir,
-					"VERIF_KNOWN="+filepath.Join(verifDir, "known_findings.json"), "VERIF_SCRATCH="+filepath.Join(runDir, "scratch"),
+					"VERIF_KNOWN="+env("VERIF_KNOWN_FILE", filepath.Join(verifDir, "known_findings.json")), "VERIF_SCRATCH="+filepath.Join(runDir, "scratch"),
 					"GORACE=log_path="+filepath.Join(runDir, "race")+" halt_on_error=0 exitcode=0", "VERIF_RACE_LOG="+filepath.Join(runDir, "race"),
 					fmt.Sprintf("VERIF_PART=%d", pi), "GOMAXPROCS="+gmp)
 				cmd.Env = append(cmd.Env, p.Env...)
